@@ -365,6 +365,8 @@ def write_replay(pid, kind, payload):
 
 
 def write_evidence(prop, tier, seed, cov, wall, violations, assumptions):
+    if os.environ.get('VERIF_NO_EVIDENCE'):   # runs against a scratch copy of /repo (seeded changes) leave the evidence alone
+        return
     os.makedirs(os.path.join(VERIF, 'evidence'), exist_ok=True)
     ev = {'property_id': prop.id, 'tier': tier, 'seed': seed, 'level': 'proof', 'coverage': cov,
           'assumptions': assumptions, 'wall_s': round(wall, 2), 'violations': violations}
